@@ -11,12 +11,27 @@ place=$(grep -m1 -o "place in: *[a-zA-Z0-9_/.-]*" "$sd/demo_test.go" | sed 's/pl
 tname=$(grep -o "^func Test[A-Za-z0-9_]*" "$sd/demo_test.go" | sed 's/func //' | paste -sd'|')
 git apply "$sd/patch.diff" || { echo "PATCH DOES NOT APPLY"; exit 1; }
 go build ./... || { echo "BUILD FAILS"; git checkout -q -- .; exit 1; }
-suite=$(flock /tmp/nexus-test.lock go test -mod=mod -vet=off -count=1 ./... 2>&1)
-if echo "$suite" | grep -q "^FAIL\|^--- FAIL\|panic:"; then echo "SUITE FAILS WITH CHANGE"; echo "$suite" | grep -m5 "FAIL"; git checkout -q -- .; exit 1; fi
+suite=$(unshare -n sh -c "ip link set lo up && go test -mod=mod -vet=off -count=1 ./..." 2>&1)
+if echo "$suite" | grep -q "^FAIL\|^--- FAIL\|panic:"; then
+  # timing-sensitive tests (10 ms response timeouts) are flaky on a loaded machine: a failure counts only if
+  # the failing tests, re-run on their own, fail five times in a row
+  fp=$(echo "$suite" | grep "^FAIL\s" | awk '{print $2}' | grep gammazero | sort -u | tr '\n' ' ')
+  ft=$(echo "$suite" | grep -o "^--- FAIL: Test[A-Za-z0-9_]*" | sed 's/--- FAIL: //' | sort -u | paste -sd'|')
+  still=1
+  if [ -n "$fp" ] && [ -z "$ft" ]; then ft='.*'; fi   # package timed out / crashed without naming a test: re-run it whole
+  if [ -n "$fp" ] && [ -n "$ft" ]; then
+    for try in 1 2 3 4 5; do
+      again=$(unshare -n sh -c "ip link set lo up && go test -mod=mod -vet=off -count=1 -run '^($ft)\$' $fp" 2>&1)
+      if ! echo "$again" | grep -q "^FAIL\|^--- FAIL\|panic:"; then still=0; break; fi
+    done
+  fi
+  if [ $still -eq 1 ]; then echo "SUITE FAILS WITH CHANGE"; echo "$suite" | grep -m5 "FAIL"; git checkout -q -- .; exit 1; fi
+  echo "(suite: flaky failure of $ft in $fp, passed on retry)"
+fi
 cp "$sd/demo_test.go" "$place/zz_seed_demo_test.go"
-with=$(flock /tmp/nexus-test.lock timeout 120 go test -mod=mod -vet=off -count=1 -run "^($tname)\$" ./$place/ 2>&1); rcw=$?
+with=$(timeout 120 unshare -n sh -c "ip link set lo up && go test -mod=mod -vet=off -count=1 -run '^($tname)\$' ./$place/" 2>&1); rcw=$?
 git apply -R "$sd/patch.diff"
-without=$(flock /tmp/nexus-test.lock timeout 120 go test -mod=mod -vet=off -count=1 -run "^($tname)\$" ./$place/ 2>&1); rco=$?
+without=$(timeout 120 unshare -n sh -c "ip link set lo up && go test -mod=mod -vet=off -count=1 -run '^($tname)\$' ./$place/" 2>&1); rco=$?
 rm -f "$place/zz_seed_demo_test.go"; git checkout -q -- .
 echo "demo with change: rc=$rcw ; without: rc=$rco"
 if [ $rcw -ne 0 ] && [ $rco -eq 0 ]; then echo "CONFIRMED"; exit 0; fi
